@@ -20,7 +20,7 @@ TRUSTED = ["CPython's own costs (big ints, list.remove, allocator) are outside t
 ASSUMPTIONS = ["bitmap canvases in generated inputs are limited to 512x512 so that 'declared' stays small", "inputs <= 64 KiB"]
 
 A_LINES, C_LINES = 600, 60000
-B_MEM, M_MEM = 96, 4 << 20
+B_MEM, M_MEM = 96, 2 << 20
 TIMEOUT_S = 25        # CPU seconds of this worker (ITIMER_VIRTUAL): immune to machine load
 FILES = REPO / "tests" / "files"
 
@@ -242,6 +242,58 @@ def mutate(rng, b: bytes, how):
     return bytes(b)
 
 
+def snd_two_command_grid():
+    """every pair of sound headers over a small adversarial grid, as two buffer commands of one format-2 resource
+    (state such as sample width and channel count is carried from one command to the next through the SampledSound)"""
+    V = [0, 1, 3, 0x00400000, 0x7FFFFFFF]
+    hdrs = []
+    for L in V:
+        hdrs.append(("s", struct.pack(">II", 0, L) + struct.pack(">HH", 22254, 0) + bytes(8) + b"\x00\x3c"))
+    for ch in V:
+        for fr in (0, 1, 4, 0x00400000):
+            for bits in (8, 16):
+                hdrs.append(("e", struct.pack(">II", 0, ch) + struct.pack(">HH", 22254, 0) + bytes(8) + b"\xff\x3c"
+                             + struct.pack(">I", fr) + bytes(10) + bytes(12) + struct.pack(">H", bits) + bytes(14)))
+    out = []
+    data = bytes(range(1, 17))
+    for k1, h1 in hdrs:
+        for k2, h2 in hdrs:
+            pre = struct.pack(">hH", 2, 0) + struct.pack(">H", 2)
+            off1 = len(pre) + 16
+            off2 = off1 + len(h1) + len(data)
+            cmds = struct.pack(">HHI", 0x8051, 0, off1) + struct.pack(">HHI", 0x8051, 0, off2)
+            out.append(("snd", pre + cmds + h1 + data + h2 + data, {}, "grid-snd-2cmd"))
+    return out
+
+
+def layout_pair_grid():
+    """for readers whose header layout is known from the source (harness/gen_layouts.py): every PAIR of header fields set to
+    adversarial values at the same time (a count together with a stride, a size together with an offset, ...)"""
+    import gen_layouts as gl
+    S = seeds()
+    out = []
+    riff = REPO / "drxtract" / "riff"
+    specs = []
+    try:
+        specs.append(("mmap", gl.layout_of(riff / "mmap.py", "parse_mmap", None)))
+    except Exception:
+        pass
+    for name, fields in specs:
+        for seed, aux in (S.get(name) or [])[:2]:
+            for i in range(len(fields)):
+                for j in range(i + 1, len(fields)):
+                    for vi in (0, 1, -1, "max"):
+                        for vj in (0, 1, -1, "max"):
+                            b = bytearray(seed)
+                            for (nm, off, w, sg, _), v in ((fields[i], vi), (fields[j], vj)):
+                                if v == "max":
+                                    v = (1 << (8 * w - 1)) - 1
+                                if off + w <= len(b):
+                                    b[off:off + w] = (v & ((1 << (8 * w)) - 1)).to_bytes(w, "big" if aux.get("order", ">") == ">" else "little")
+                            out.append((name, bytes(b), aux, "grid-pair"))
+    return out
+
+
 def small_field_grid():
     """exhaustive over small values of the record-size fields of the score and container walkers"""
     out = []
@@ -332,7 +384,7 @@ def cases(rng, tier):
         if name == "riff" and aux.get("order") in "<>":
             lines = [f"riff steps {aux['order']} 0 {hx(data)}"]
         return Case(kind=f"{name}:{kind}", spec=spec, lines=lines, expect=[None])
-    for name, data, aux, kind in small_field_grid():
+    for name, data, aux, kind in small_field_grid() + snd_two_command_grid() + layout_pair_grid():
         out.append(mk(name, data, aux, kind))
     for name in DECODERS:
         ss = S.get(name) or [(b"", {})]
